@@ -33,6 +33,13 @@ example : uniqueName dflt
 theorem candidates_injective (sfx d name : Str) (i j : Nat) (h : cand sfx d name i = cand sfx d name j) :
     i = j := cand_injective sfx d name h
 
+/-- the candidate sequences: default camel `Pet, Pet1, Pet2`, snake `pet, pet_1`, per-module pass
+`Pet, PetModel, PetModel1`, and the empty name `"", "1"` (`if p` drops empty parts) -/
+example : (List.range 3).map (cand [] [] (L "Pet")) = [L "Pet", L "Pet1", L "Pet2"] ∧
+    (List.range 2).map (cand [] ['_'] (L "pet")) = [L "pet", L "pet_1"] ∧
+    (List.range 3).map (cand (L "Model") [] (L "Pet")) = [L "Pet", L "PetModel", L "PetModel1"] ∧
+    (List.range 2).map (cand [] ['_'] []) = [[], L "1"] := by decide
+
 /-- TERMINATION of the `while unique_name in reference_names` loop: `|names ∪ excludes| + 1`
 evaluations of the condition suffice (pigeonhole over injective candidates). -/
 theorem uniqueName_fuel (cfg : Cfg) (s : State) (name : Str) (camel : Bool) :
@@ -49,6 +56,13 @@ theorem uniqueName_first (cfg : Cfg) (s : State) (name u : Str) (camel : Bool)
       ∀ i, i < m → cand cfg.sfx (if camel then [] else ['_']) name i ∈ taken s := by
   have := goU_first h
   simpa using this
+
+/-- non-vacuity (same state as above): `Pet3` is candidate number 3 and candidates 0–2 are taken -/
+example :
+    let s : State := { refs := [⟨L "a#", L "Pet", L "Pet", none, true, 0⟩, ⟨L "b#", L "Pet1", L "pet", none, true, 1⟩],
+                       excl := [L "Pet2"], root := [], next := 2 }
+    uniqueName dflt s (L "Pet") true = some (cand [] [] (L "Pet") 3) ∧
+      (List.range 3).all (fun i => (taken s).contains (cand [] [] (L "Pet") i)) = true := by decide
 
 /-- No registry operation hangs: the `diverges` outcome of the model is unreachable. -/
 theorem step_never_diverges (cfg : Cfg) (s : State) (op : Op) : (step cfg s op).2 ≠ .diverges :=
@@ -67,6 +81,9 @@ theorem registry_functional (cfg : Cfg) (excl : List Str) (ops : List Op) :
 theorem registry_functional_step (cfg : Cfg) (s : State) (op : Op)
     (h : (s.refs.map (·.path)).Nodup) : ((step cfg s op).1.refs.map (·.path)).Nodup :=
   shape_paths (step_shape cfg s op) h
+
+example : (([⟨L "p#", L "A", L "A", none, true, 0⟩, ⟨L "q#", L "A", L "a", none, false, 1⟩] : List Entry).map (·.path)).Nodup := by
+  decide
 
 example : (L "#/definitions/Pet") ∈
     (run dflt (State.init []) [.addRef (L "#/definitions/Pet") false,
@@ -186,8 +203,13 @@ theorem name_is_classform (cfg : Cfg) (s : State) (path : List Str) (key : Str) 
   rw [dotSplit_of_no_dot cfg hdot]
   simp [hu]
 
-example : (step dflt (State.init [L "Pet"]) (.add [L "#/$defs", L "pets-item"] (L "pets-item") true false true none true)).2 =
-    .ref ⟨L "#/$defs/pets-item", L "PetsItem", L "pets-item", none, true, 0⟩ := by decide
+/-- non-vacuity: `Pet` is excluded, the key `pets-item` has the free class-name form `PetsItem` -/
+example :
+    let s := State.init [L "Pet"]
+    find s.refs (joinPath [L "#/$defs", L "pets-item"]) = none ∧ '.' ∉ L "pets-item" ∧
+      dflt.cn (L "pets-item") = L "PetsItem" ∧ dflt.cn (L "pets-item") ∉ taken s ∧
+      (step dflt s (.add [L "#/$defs", L "pets-item"] (L "pets-item") true false true none true)).2 =
+        .ref ⟨L "#/$defs/pets-item", L "PetsItem", L "pets-item", none, true, 0⟩ := by decide
 
 /-! ### `Parser.__replace_duplicate_name_in_module` -/
 
@@ -202,9 +224,10 @@ theorem final_names_distinct (cfg : Cfg) (imported : List Str) (ms : List ModMod
   replaceDuplicateNameInModule_nodup cfg imported ms out hpaths hdot h
 
 /-- non-vacuity, on the collision of `reserved_name_collision`: `Pet`, `Pet` ↦ `Pet`, `PetModel` -/
-example : replaceDuplicateNameInModule dflt [L "BaseModel"]
-    [⟨L "#/definitions/Pet", L "Pet", []⟩, ⟨L "#/definitions/pet", L "Pet", []⟩] =
-    some [L "Pet", L "PetModel"] := by decide
+example :
+    let ms : List ModModel := [⟨L "#/definitions/Pet", L "Pet", []⟩, ⟨L "#/definitions/pet", L "Pet", []⟩]
+    (ms.map (fun m => joinPath [m.path])).Nodup ∧ (∀ m ∈ ms, '.' ∉ m.cls) ∧
+      replaceDuplicateNameInModule dflt [L "BaseModel"] ms = some [L "Pet", L "PetModel"] := by decide
 
 /-- The pass alone does NOT keep class names disjoint from imported names: its second loop gives a
 model its first desired name back without looking at `exclude_names`. `Optional1` (duplicate name
